@@ -306,6 +306,63 @@ theorem drop_no_more_than_needed (lim : Nat) (batch : List Frame) (cl : Client) 
 theorem wake_batch_le (s : State) (frames : List Frame) : (frames.take s.limit).length ≤ s.limit := by
   simp [List.length_take]; omega
 
+/-- **only a slow client has messages discarded.** The fan-out removes frames from a client's queue
+    (`to_drain > 0`) only if the `drive_connection` call just before it -- in this very fan-out -- came back
+    with the socket refusing: a parked buffer in `wbuf` and at least one `write` attempted.  So a client whose
+    socket takes what it is offered (a freshly accepted one with its metadata still queued, one whose backlog
+    the socket would take now) never loses a frame, whatever its queue length compared with `buffer_size`. -/
+theorem drop_only_after_refusal (fx : Fixes) (hfx : fx.block = true) (lim : Nat) (batch : List Frame)
+    (cl : Client) (rs : List WriteResult) (hb : batch.length ≤ lim) (hd : (drive fx cl rs).done = false)
+    (hk : 0 < toDrain lim (drive fx cl rs).cl.msgs.length batch.length) :
+    (drive fx cl rs).cl.wbuf.isSome = true ∧ (drive fx cl rs).attempts ≠ [] := by
+  refine drive_queue_left_parked fx hfx rs cl hd ?_
+  intro hm
+  have := toDrain_le lim (drive fx cl rs).cl.msgs.length batch.length hb
+  rw [hm] at this hk
+  simp only [List.length_nil] at this hk
+  omega
+
+/-- … the same in terms of what the trace shows for one client of one fan-out (`ClientLog`): a positive drop
+    count comes with a first drive that ended parked (`wbuf` = `Some`) after at least one `write`. -/
+theorem wake_drop_only_for_slow_client (fx : Fixes) (hfx : fx.block = true) (lim : Nat) (batch : List Frame)
+    (cl : Client) (rs : List WriteResult) (hb : batch.length ≤ lim) (lg : ClientLog) (k e : Nat) (p2 : Phase)
+    (h : (wakeClient fx lim batch cl rs).log = some lg) (h2 : lg.second = some (k, e, p2)) (hk : 0 < k) :
+    lg.p1.wbuf.isSome = true ∧ lg.p1.attempts ≠ [] := by
+  unfold wakeClient at h
+  cases ha : cl.alive with
+  | false => simp [ha] at h
+  | true =>
+    cases hd : (drive fx cl rs).done with
+    | true =>
+      simp only [ha, Bool.not_true, Bool.false_eq_true, if_false, hd, if_true, Option.some.injEq] at h
+      subst h
+      simp at h2
+    | false =>
+      simp only [ha, Bool.not_true, Bool.false_eq_true, if_false, hd, Option.some.injEq] at h
+      subst h
+      simp only [Option.some.injEq, Prod.mk.injEq] at h2
+      obtain ⟨hk', _, _⟩ := h2
+      subst hk'
+      have := drop_only_after_refusal fx hfx lim batch cl rs hb hd hk
+      simpa [DriveOut.phase] using this
+
+/-- **a healthy client keeps its metadata.** A freshly accepted client (nothing parked, its metadata still
+    queued because its first WRITABLE event has not been handled) that is reached by a fan-out in that state and
+    whose socket takes every buffer whole: nothing is discarded (the drop count is 0) however many metadata
+    frames are queued compared with `buffer_size`, and the first drive has already written them all. -/
+theorem fresh_client_keeps_metadata (N : Nat) (hN : 0 < N) (lim : Nat) (batch : List Frame) (md : List Frame)
+    (rs : List WriteResult) (hrs : ∀ r ∈ rs, r = .ok N) (hmb : ∀ f ∈ md, f.bytes.length ≤ N)
+    (hlen : md.length ≤ rs.length) :
+    let cl : Client := { msgs := md, sent := md, atConnect := md }
+    (drive {} cl rs).done = false ∧ (drive {} cl rs).cl.received = flat md ∧
+    toDrain lim (drive {} cl rs).cl.msgs.length batch.length = batch.length - lim := by
+  intro cl
+  obtain ⟨h1, _, h3, h4⟩ := drive_full_accept {} N hN rs cl hrs (by simp [cl]) hmb (by simpa [cl] using hlen)
+  refine ⟨h1, by simpa [cl] using h4, ?_⟩
+  rw [h3]
+  simp [toDrain]
+  split <;> omega
+
 /-- **no_tear_on_wouldblock.** `WouldBlock` (before any byte, or after a partial write): nothing is lost —
     the buffer taken from `wbuf`/`msgs` goes back into `wbuf` and is the very next thing written. -/
 theorem no_tear_on_wouldblock (cl cl' : Client) (buf : List UInt8) (rs : List WriteResult)
@@ -406,6 +463,22 @@ example : ∃ s, initTransport {} (some 1) = some s ∧
     (run s [.accept [], .wake [] [fA] [(2, [.ok 1])], .wake [] [fB] [(2, [.wouldBlock, .wouldBlock])],
       .wake [] [fA] [(2, [.wouldBlock, .wouldBlock])], .writable 2 [.ok 3, .ok 4]]).clients.map
         (fun p => (p.2.received, p.2.dropped)) = [([3, 10, 20, 30, 3, 10, 20, 30], 1)] :=
+  ⟨_, rfl, by decide⟩
+
+/-- a client accepted in the same poll round as a fan-out (`buffer_size = 2`, three metadata frames still
+    queued, batch of two): the first drive writes the metadata, nothing is discarded, metadata then metrics -/
+example : ∃ s, initTransport {} (some 2) = some s ∧
+    (run s [.wake [(0, fA), (1, fB), (2, ⟨7, [1, 9]⟩)] [] [], .accept [0, 1, 2],
+      .wake [] [⟨8, [1, 8]⟩, ⟨9, [1, 7]⟩] [(2, [.ok 4, .ok 3, .ok 2, .ok 2, .ok 2])]]).clients.map
+        (fun p => (p.2.received, p.2.dropped)) = [([3, 10, 20, 30, 2, 40, 50, 1, 9, 1, 8, 1, 7], 0)] :=
+  ⟨_, rfl, by decide⟩
+
+/-- … whereas a client whose socket refuses in that fan-out (a parked buffer) does lose its oldest queued frames -/
+example : ∃ s, initTransport {} (some 2) = some s ∧
+    (run s [.wake [(0, fA), (1, fB), (2, ⟨7, [1, 9]⟩)] [] [], .accept [0, 1, 2],
+      .wake [] [⟨8, [1, 8]⟩, ⟨9, [1, 7]⟩] [(2, [.ok 4, .wouldBlock, .wouldBlock])]]).clients.map
+        (fun p => (p.2.received, p.2.wbuf, p.2.msgs.map (·.id), p.2.dropped)) =
+      [([3, 10, 20, 30], some [2, 40, 50], [8, 9], 1)] :=
   ⟨_, rfl, by decide⟩
 
 /-! ### the producer side: emitters, channel, waker, read loop (`Model/TcpProd.lean`)
@@ -600,6 +673,20 @@ theorem src_client_branch_writes_only :
 theorem src_accept_loop :
     Generated.tcp_accept_loop_tokens =
       ["loop", "accept", "next", "register", "register", "increment_clients", "insert", "break", "return"] := by
+  decide
+
+/-- the fan-out loop is `drive; if done { push; continue }; available = limit - len (or 0); to_drain =
+    batch.saturating_sub(available); drain(0..to_drain); extend(batch.take(limit)); drive; if done { push }`:
+    the drive BEFORE the drop-oldest computation is unconditional (the model's `wakeClient`), so
+    `drop_only_after_refusal` speaks about the code -/
+theorem src_fanout_shape :
+    Generated.tcp_fanout_tokens =
+      ["drive_connection", "if", "push", "continue", "if", "else", "saturating_sub", "drain", "extend",
+       "drive_connection", "if", "push"] ∧
+    Generated.tcp_fanout_available = "if msgs.len() < buffer_limit { buffer_limit - msgs.len() } else { 0 }" ∧
+    Generated.tcp_fanout_to_drain = "buffered_pmsgs.len().saturating_sub(available)" ∧
+    Generated.tcp_fanout_drain_extend =
+      ["msgs.drain(0..to_drain)", "msgs.extend(buffered_pmsgs.iter().take(buffer_limit).cloned())"] := by
   decide
 
 /-- every metric frame gets its own `SystemTime::now()` -/
